@@ -805,9 +805,9 @@ PIERCING = ('pierce_fast', 'pierce_slow', 'cannot_fast', 'stranger_then_pierce',
 def _requires(mode, d, i, addr):
     """vacuity guard: what this scenario must have exercised"""
     req = ['request_started', 'scenario_end', 'direct_attempted']
-    if d == 'tie' or i in TIES:
-        return req + ['request_ended']       # deliberate ties: either outcome is fine
     hangs = (mode, i, addr) == ('race', 'send_fails', 'server')      # (unrepaired tree: the request never ends there)
+    if d == 'tie' or i in TIES:
+        return req + ([] if hangs else ['request_ended'])       # deliberate ties: either outcome is fine
     if not hangs:
         req.append('request_ended')
     if d in DIRECT_OK and not hangs:
